@@ -24,6 +24,18 @@ import (
 	"github.com/cloudwego/hertz/pkg/network"
 )
 
+// VerifListen, when set by a simulation harness, replaces net.Listen in the
+// transport's accept loop so that the loop can run over an in-memory listener.
+var VerifListen func(network, addr string) (net.Listener, error)
+
+func verifListen(network, addr string) (net.Listener, error, bool) {
+	if VerifListen == nil {
+		return nil, nil, false
+	}
+	ln, err := VerifListen(network, addr)
+	return ln, err, true
+}
+
 // NewVerifConn wraps an arbitrary net.Conn in the buffered standard connection.
 // Only built with the verif tag; lets a simulation harness put the real
 // reader/writer on top of an in-memory connection.
